@@ -78,7 +78,9 @@ CHECKS = {
              "coqc on the REAL outputs, and C05_proj_sound turns a passed check into equality of tracer i's stream for every semantics satisfying the stated laws. "
              "Dynamic: ~40 stacks of 2-3 tracers (overlapping, disjoint, nested, identical subsets; independent guard flags) are run stacked, each tracer alone, and as one "
              "tracer subscribed to the union: per-tracer streams (event, node, value) must be identical and the global delivery log must be the union stream expanded in "
-             "stack order.",
+             "stack order. C05_frag_stack (model/FragSem.v) is UNBOUNDED on a fragment of Python: a module instrumented for the union of a stack's subscriptions delivers to "
+             "tracer i what it is delivered alone, for all primitive operations, stacks, modules and environments (tied by K-sem); a pair battery (single-event tracers x "
+             "single / dense tracers on six feature programs) runs the oracle on the combinations that matter for statement-level events.",
         note="Trusted: Coq kernel + vm_compute; model/Rt.v loops tied by C04's correspondence; astexport; the laws of the projection theorem (validated by the oracle). "
              "Observing, unconditional handlers; all tracers accept the file.",
         ref="DESIGN.md section 7 C05"),
